@@ -44,7 +44,7 @@ TotFrom(gr, fld, g, acc) ==
   ELSE LET own == IF fld = "rnd" THEN gr[g].rnd ELSE gr[g].prf
            RECURSIVE SumCalls(_)
            SumCalls(k) == IF k > Len(gr[g].calls) THEN 0 ELSE gr[g].calls[k][2] * acc[gr[g].calls[k][1]] + SumCalls(k + 1)
-       IN TotFrom(gr, fld, g + 1, Append(acc, own + SumCalls(1)))
+       IN TotFrom(gr, fld, g + 1, TLCEval(Append(acc, own + SumCalls(1))))
 InlinedCount(b, fld) == TotFrom(b.gr, fld, 1, <<>>)[b.main]
 InliningKeepsRandomness(b, s) ==
   b.iterates = 0 => /\ s.rnd = InlinedCount(b, "rnd")             \* no two copies share a Random node, none is lost
